@@ -87,6 +87,30 @@ def wide(depth):
     return out
 
 
+def scale_types(deep):
+    """scale sweep: every nesting depth 3..12 (thorough ..24) of each wrapper and of the wrappers cycling; STRUCTs of every field count 3..40
+    (..120) with scalar fields, with a nested last field, and with field names of growing length"""
+    W = ["ARRAY<%s>", "MAP<STRING,%s>", "STRUCT<a:%s>", "STRUCT<a:%s,b:INT>"]
+    out = []
+    for d in range(3, (24 if deep else 12) + 1):
+        for w in W:
+            t = "INT"
+            for _ in range(d):
+                t = w % t
+            out.append(t)
+        for off in range(4):
+            t = "STRING"
+            for i in range(d):
+                t = W[(i + off) % 4] % t
+            out.append(t)
+    for n in range(3, (120 if deep else 40) + 1):
+        out.append("STRUCT<%s>" % ",".join("f%d:%s" % (i, ("INT", "STRING", "BIGINT")[i % 3]) for i in range(n)))
+        if n % 3 == 0:
+            out.append("STRUCT<%s,z:ARRAY<STRING>>" % ",".join("f%d:INT" % i for i in range(n)))
+            out.append("STRUCT<%s:INT,b:MAP<STRING,%s_t>>" % (("field_" + "abcdefghij" * 30)[:n * 3], ("el_" + "klmnopqrst" * 30)[:n * 3]))
+    return out
+
+
 def spacing(t, mode):
     if mode == "none":
         return t
@@ -113,6 +137,7 @@ def gen_cases(tier):
     T += ["STRUCT<identity:STRING,b:INT>", "MAP<STRING,identity_t>", "STRUCT<user_identity:STRUCT<a:INT>,b:STRING>", "ARRAY<identity_t>"]
     if tier == "thorough":
         T += types(3) + types(4) + wide(2) + wide(3)[::5]
+    T += scale_types(tier == "thorough")
     seen, cases = set(), []
     for t in T:
         if t in seen:
